@@ -31,7 +31,7 @@ META = {
 
 
 def shards(tier: str) -> List[Any]:
-    return [("models", tier, index, c13.SLICES) for index in range(c13.SLICES)]
+    return [("models", tier, index, c13.SLICES) for index in range(c13.SLICES)] + [("history", tier)]
 
 
 def work(shard: Any) -> Result:
